@@ -593,10 +593,12 @@ impl Wal {
                 vh::io(vh::IoKind::Create, &tmp, None, 0, &[])?;
                 VERIF_TMP_PATH.with(|p| *p.borrow_mut() = Some(tmp.clone()));
             }
+            // A temporary file left behind by a failed earlier attempt (same process, same
+            // transaction id) is started over, not an error.
             let mut tmp_file = OpenOptions::new()
                 .write(true)
-                .create_new(true)
-                .truncate(false)
+                .create(true)
+                .truncate(true)
                 .open(&tmp)?;
 
             fn append_to(file: &mut File, record: &WalRecord) -> Result<()> {
